@@ -39,6 +39,12 @@ let rec take n l = if n = 0 then [] else match l with [] -> [] | x :: r -> x :: 
 let rec drop n l = if n = 0 then l else match l with [] -> [] | _ :: r -> drop (n - 1) r
 let rec until_bar = function [] -> ([], []) | "|" :: r -> ([], r) | x :: r -> let (a, b) = until_bar r in (x :: a, b)
 
+(* answer: the cofaces in the order of enumeration (state-machine model cofaces_iter); verdict: the specification
+   cofaces_ok of the set-level model cofaces, and both models enumerate the same simplices *)
+let cofaces_answer l s =
+  let it = List.map sstr (cofaces_iter l s) and st = List.map sstr (cofaces l s) in
+  String.concat " " it ^ " # " ^ ok (cofaces_ok l s && List.sort compare it = List.sort compare st)
+
 let answer w obs =
   match w with
   | "G" :: ds :: k :: rest ->
@@ -64,10 +70,10 @@ let answer w obs =
     String.concat " " (List.map sstr (facets s)) ^ " # " ^ ok (faces_ok k s && (!d > 5 || faces_cofaces_ok k s))
   | ["C"; l; s] ->
     let s = parse_simplex s and l = i2n (int_of_string l) in
-    String.concat " " (List.map sstr (cofaces l s)) ^ " # " ^ ok (cofaces_ok l s)
+    cofaces_answer l s
   | ["CT"; s] ->
     let s = parse_simplex s in
-    String.concat " " (List.map sstr (cofacets s)) ^ " # " ^ ok (cofaces_ok (S (dimension s)) s)
+    cofaces_answer (S (dimension s)) s
   | ["I"; s; t] ->
     let s = parse_simplex s and t = parse_simplex t in
     let a = is_face_of s t in
